@@ -827,20 +827,31 @@ func ruleStaleLen(c *Ctx) {
 		for _, al := range aliases {
 			// reassignments of the slice after the alias was taken, and re-definitions of the alias
 			var reassign, redef []token.Pos
-			ast.Inspect(fd.Body, func(nd ast.Node) bool {
+			walkStack(fd.Body, func(nd ast.Node, stack []ast.Node) {
 				as, ok := nd.(*ast.AssignStmt)
 				if !ok {
-					return true
+					return
 				}
 				for i, l := range as.Lhs {
 					if p.objOf(l) == al.of && as.Pos() > al.def {
-						reassign = append(reassign, as.Pos())
+						// x = append(x, ...) only grows x: what was there stays where it was, and the old
+						// length remains a valid offset (the "remember where my output starts" idiom)
+						if i < len(as.Rhs) && len(as.Lhs) == len(as.Rhs) {
+							if call, ok := ast.Unparen(as.Rhs[i]).(*ast.CallExpr); ok && p.calleeName(call) == "builtin.append" && len(call.Args) >= 1 && p.objOf(call.Args[0]) == al.of {
+								continue
+							}
+							// if cap(x) == 0 { x = make(T, 0, n) }: an empty slice replaced by an empty slice
+							if emptyForEmpty(p, as.Rhs[i], al.of, as, stack) {
+								continue
+							}
+						}
+						// the right-hand side of the reassigning statement still sees the old slice
+						reassign = append(reassign, as.End())
 					}
 					if p.objOf(l) == al.lenVar && as.Pos() > al.def && i < len(as.Rhs) {
 						redef = append(redef, as.Pos())
 					}
 				}
-				return true
 			})
 			n++
 			seenKey[name+":"+al.lenVar.Name()]++
@@ -2417,4 +2428,67 @@ func ruleStaleWide(c *Ctx) {
 	if n < 6 {
 		c.undecided("stalewide.count", nil, fmt.Sprintf("only %d limb narrowings found", n))
 	}
+}
+
+// emptyForEmpty reports whether `x = rhs` (the statement as) replaces a slice known to be empty by a fresh
+// empty one: rhs is make(T, 0[, n]) and the assignment is the first statement touching x in the body of an
+// `if cap(x) == 0` or `if len(x) == 0`.
+func emptyForEmpty(p *Prog, rhs ast.Expr, x types.Object, as *ast.AssignStmt, stack []ast.Node) bool {
+	call, ok := ast.Unparen(rhs).(*ast.CallExpr)
+	if !ok || p.calleeName(call) != "builtin.make" || len(call.Args) < 2 {
+		return false
+	}
+	if v, ok := p.constInt64(call.Args[1]); !ok || v != 0 {
+		return false
+	}
+	if len(stack) < 2 {
+		return false
+	}
+	blk, ok := stack[len(stack)-1].(*ast.BlockStmt)
+	if !ok {
+		return false
+	}
+	ifs, ok := stack[len(stack)-2].(*ast.IfStmt)
+	if !ok || ifs.Body != blk || ifs.Init != nil {
+		return false
+	}
+	be, ok := ast.Unparen(ifs.Cond).(*ast.BinaryExpr)
+	if !ok || be.Op != token.EQL {
+		return false
+	}
+	l, r := be.X, be.Y
+	if v, ok := p.constInt64(l); ok && v == 0 {
+		l, r = r, l
+	}
+	if v, ok := p.constInt64(r); !ok || v != 0 {
+		return false
+	}
+	lc, ok := ast.Unparen(l).(*ast.CallExpr)
+	if !ok || len(lc.Args) != 1 || p.objOf(lc.Args[0]) != x {
+		return false
+	}
+	if n := p.calleeName(lc); n != "builtin.cap" && n != "builtin.len" {
+		return false
+	}
+	// nothing in the body before the assignment writes x
+	for _, st := range blk.List {
+		if st == ast.Stmt(as) {
+			return true
+		}
+		wrote := false
+		ast.Inspect(st, func(m ast.Node) bool {
+			if a, ok := m.(*ast.AssignStmt); ok {
+				for _, lh := range a.Lhs {
+					if p.objOf(lh) == x {
+						wrote = true
+					}
+				}
+			}
+			return true
+		})
+		if wrote {
+			return false
+		}
+	}
+	return false
 }
